@@ -78,7 +78,34 @@ pub fn check_stream(bytes: &[u8], kind: &str, exp: Option<&Expect>, obs: &mut Ob
                                     sd::hvcc(cp, &mut dev);
                                 }
                                 b"av1C" => {
-                                    sd::av1c(cp, &mut dev);
+                                    if let Some(c) = sd::av1c(cp, &mut dev) {
+                                        // AV1-ISOBMFF 2.3.3: the record's fields shall match the
+                                        // sequence header OBU carried in configOBUs (a strict
+                                        // reader cross-checks them); needs no side information
+                                        if let crate::model::av1::SeqScan::Valid(_, e) = crate::model::av1::scan_for_seq_hdr(&c.config_obus) {
+                                            let mono = if e.monochrome { " (monochrome header)" } else { "" };
+                                            let pairs: [(&str, u32, u32); 9] = [
+                                                ("seq_profile", c.seq_profile as u32, e.seq_profile as u32),
+                                                ("seq_level_idx_0", c.seq_level_idx_0 as u32, e.seq_level_idx_0 as u32),
+                                                ("seq_tier_0", c.seq_tier_0 as u32, e.seq_tier_0 as u32),
+                                                ("high_bitdepth", c.high_bitdepth as u32, e.high_bitdepth as u32),
+                                                ("twelve_bit", c.twelve_bit as u32, e.twelve_bit as u32),
+                                                ("monochrome", c.monochrome as u32, e.monochrome as u32),
+                                                ("chroma_subsampling_x", c.sub_x as u32, e.sub_x as u32),
+                                                ("chroma_subsampling_y", c.sub_y as u32, e.sub_y as u32),
+                                                ("chroma_sample_position", c.csp as u32, e.csp as u32),
+                                            ];
+                                            let defaulted = (c.seq_profile, c.seq_level_idx_0, c.seq_tier_0, c.high_bitdepth, c.twelve_bit, c.monochrome, c.sub_x, c.sub_y, c.csp) == (0, 0, 0, false, false, false, true, true, 0);
+                                            if let Some((name, _, _)) = pairs.iter().find(|(_, g, w)| g != w) {
+                                                if defaulted && *name != "chroma_sample_position" {
+                                                    dev.push(format!("av1C: carries default field values although configOBUs hold a sequence header that says otherwise{}", mono));
+                                                } else {
+                                                    dev.push(format!("av1C: {} disagrees with the sequence header in configOBUs{}", name, mono));
+                                                }
+                                            }
+                                            obs.count("av1C_cross_checked_with_configOBUs", 1);
+                                        }
+                                    }
                                 }
                                 b"vpcC" => {
                                     sd::vpcc(cp, &mut dev);
